@@ -283,6 +283,7 @@ package message
 //@   ensures enc_consumed: [C14 C08 C13] old(strmEncrypting) && err == nil && old(viewLen(m)) >= 8 ==> L >= 0 && viewLen(m) - old(viewLen(m)) + 8 + L <= rdTotal - old(rdTotal)
 //@   ensures proportional: [C13] err == nil ==> len(result) + viewLen(m) <= old(viewLen(m)) + (rdTotal - old(rdTotal))
 //@   ensures inv_kept: msgInv(m)
+//@   ensures buf_own: ref(m.buffer.buf) == old(ref(m.buffer.buf)) || fresh(m.buffer.buf)
 
 //@ func (*Message).GetStringWithMaxSize (m, ctx, maxSize) (result, err)
 //@   props C13 C14
@@ -455,6 +456,7 @@ package message
 //@   assigns @msgRead, strmEncrypting, strmSaved, @strmToggle(m.stream)
 //@   ensures restored: typeis(m.stream, "*stream.Stream") ==> strmEncrypting == old(strmEncrypting)
 //@   ensures proportional: [C13] err == nil ==> len(result) + viewLen(m) <= old(viewLen(m)) + (rdTotal - old(rdTotal))
+//@   ensures buf_own: ref(m.buffer.buf) == old(ref(m.buffer.buf)) || fresh(m.buffer.buf)
 //@   ensures inv_kept: msgInv(m)
 
 //@ pred wantPrivate(opts) = bit(opts, 5) && !bit(opts, 1)
@@ -479,8 +481,12 @@ package message
 //@ func getClassAdFromMessageWithMaxSize (m, maxSize, ctx) (result, err)
 //@   props C13
 //@   requires inv: [typeinv] msgInv(m)
+//@   assigns @msgRead, strmEncrypting, strmSaved, @strmToggle(m.stream)
+//@   ensures inv_kept: msgInv(m)
+//@   ensures ad_on_success: err == nil ==> result != nil
 //@   let P0 = old(rdTotal) - old(viewLen(m))
 //@   loop 1 invariant budget: msgInv(m) && 0 <= totalBytesRead && (maxSize > 0 ==> totalBytesRead <= maxSize + 1)
+//@   loop 1 invariant buf_own: m.buffer == old(m.buffer) && m.stream == old(m.stream) && (ref(m.buffer.buf) == old(ref(m.buffer.buf)) || fresh(m.buffer.buf))
 //@   loop 1 invariant progress: [C13] 0 <= i && (maxSize > 0 ==> i <= totalBytesRead) && (maxSize <= 0 ==> i <= (rdTotal - viewLen(m)) - P0 + 8)
 //@   assert before call Message).GetStringWithMaxSize #1 budget_expr: maxSize > 0 && 0 < arg2 && arg2 == maxSize - totalBytesRead
 //@   assert before call Message).getSecretStringWithMaxSize #1 budget_secret: maxSize > 0 && 0 < arg2 && arg2 == maxSize - totalBytesRead
@@ -511,6 +517,7 @@ package message
 //@   assigns @msgRead, strmEncrypting, strmSaved, @strmToggle(m.stream)
 //@   ensures restored: typeis(m.stream, "*stream.Stream") ==> strmEncrypting == old(strmEncrypting)
 //@   ensures cap_result: [C13] len(result) <= max(maxSize, 0)
+//@   ensures buf_own: ref(m.buffer.buf) == old(ref(m.buffer.buf)) || fresh(m.buffer.buf)
 //@   ensures inv_kept: msgInv(m)
 
 // ---- raw and skipping ClassAd readers (C13): every loop iteration is paid for by at least one received byte ----
